@@ -196,10 +196,15 @@ func (y *Yaml) GetMapKeys() ([]string, error) {
 	if err != nil {
 		return nil, err
 	}
+	// keys in document order (each key once), so that callers do not depend on Go's map iteration order
 	keys := make([]string, 0)
-	for k := range m {
-		keys = append(keys, k)
-
+	for i, n := range y.data.Content {
+		if i%2 == 0 {
+			if _, pending := m[n.Value]; pending {
+				keys = append(keys, n.Value)
+				delete(m, n.Value)
+			}
+		}
 	}
 	return keys, nil
 }
